@@ -160,6 +160,30 @@ theorem media_canonical_text (p : MediaPlaylist) (e : Option Nat) (wf : WF p e) 
   rw [parseMedia_of_written (bE e) lines (written_lines_rt p mwf lines w1)]
   exact w2
 
+/-- **faithful in any layout**: any text `#EXTM3U` + `x` whose lines classify into typed lines that agree with the lines
+the writer prints for `p` — up to comments, EXT-X-VERSION lines and swaps of independent lines (C12's `SwapEq`), and,
+inside each tag, up to attribute order, blanks and unknown attributes (C12's `classify_*_layout`) — parses to exactly `p`.
+The value is the quantified object; the text may be any of its renderings. -/
+theorem media_any_layout (p : MediaPlaylist) (e : Option Nat) (wf : WF p e) (hk3 : Persist [] p.segments) (mwf : MediaWF p)
+    (x : Str) (ls : List Line) (hx : lineItems x = ls.map Res.ok) (lines : List Line) (hw : p.writeLines = .ok lines)
+    (hs : C12.SwapEq C12.mediaIndep (ls.filter C12.nonNeutral) ((lines.map Line.norm).filter C12.nonNeutral)) :
+    parseMediaWith (bE e) (pfxM3u ++ x) = .ok p := by
+  obtain ⟨lines', w1, w2⟩ := media_write_parse_wf p e wf hk3
+  rw [hw] at w1; cases w1
+  have hrt := written_lines_rt p mwf lines hw
+  have hcanon : lineItems ('\n' :: renderLines lines) = (lines.map Line.norm).map Res.ok := by
+    unfold lineItems
+    have := rawLines_append_nl [] (renderLines lines) (by simp)
+    simp only [List.nil_append] at this
+    rw [this]
+    have hk : keepLine [] = [] := rfl
+    rw [hk, List.nil_append]
+    exact lineItems_renderLines lines hrt
+  rw [C12.media_presentation (bE e) x ('\n' :: renderLines lines) ls (lines.map Line.norm) hx hcanon hs]
+  have e1 : pfxM3u ++ '\n' :: renderLines lines = pfxM3u ++ ['\n'] ++ renderLines lines := by simp
+  rw [e1, parseMedia_of_written (bE e) lines hrt]
+  exact w2
+
 /-- non-vacuity of `media_roundtrip_wf` / `media_roundtrip_parsed`: a concrete playlist with a key (explicit IV,
 KEYFORMAT, KEYFORMATVERSIONS), a map with byte range, chained byte ranges, a title with a comma, program date time,
 discontinuity, EXT-X-START and an unknown tag is in `MediaWF`, free of K2, and round-trips at string level -/
